@@ -89,6 +89,23 @@ pub fn check_elem_case(ctx: &Ctx, reg: &Reg, s: &Spec, bytes: &[u8], prop: &str)
         ctx.nontrivial(&(s.id, &o.text));
     }
     ctx.sample(|| json!({"receiver": emit_short(s), "input": o.text, "model": format!("{:?}", o.want).chars().take(400).collect::<String>()}));
+    // "unchanged" is structural: the plain magic fields equal the input's parts under syn's own equality, also when
+    // the element's types and expressions sit in invisible groups (token printing cannot tell those apart)
+    if prop == "c16" && o.got.is_ok() {
+        let entry = reg.entries.get(&s.id).expect("entry");
+        let bad = exact_entry(entry, s, &o.text)?;
+        if let Some((name, grouped)) = bad.first() {
+            fail!(
+                format!("c16:not-identical:{}", name),
+                "{} on `{}`{}: magic field `{}` is not structurally identical to the input's part",
+                emit_short(s),
+                o.text,
+                if *grouped { " (types / expressions wrapped in invisible groups)" } else { "" },
+                name
+            );
+        }
+        ctx.class("exact:structural-comparison");
+    }
     match (&o.want, &o.got) {
         (Ok(w), Ok(g)) => {
             let (w2, g2) = (erase_spans(w), erase_spans(g));
